@@ -307,6 +307,14 @@ impl GuiState {
                         answered_ns: None,
                         search_id: None,
                     });
+                    // the limit the GUI puts on this search: movetime, or the mover's remaining clock
+                    let white = self.game.player == crate::chess::player::Player::White;
+                    let limit_ms = if spec.wtime.is_some() || spec.btime.is_some() {
+                        Some((if white { spec.wtime } else { spec.btime }.unwrap_or(0), true))
+                    } else {
+                        spec.movetime.map(|m| (m, false))
+                    };
+                    *core.next_caller_limit_ns = limit_ms.map(|(ms, c)| (ms.saturating_mul(1_000_000), c));
                     return self.hand_over(spec.line(), core);
                 }
                 Intent::Stop => {
